@@ -5,7 +5,8 @@ use serde_json::json;
 use crate::{write_run, Args, Sink};
 
 fn norm<T: std::fmt::Debug>(t: &T) -> String {
-    format!("{:?}", t).to_lowercase()
+    // the symbol by its letters and digits only (CamelCase, kebab-case and snake_case spellings coincide)
+    format!("{:?}", t).chars().filter(|c| c.is_ascii_alphanumeric()).collect::<String>().to_lowercase()
 }
 
 pub fn run(a: &Args) {
